@@ -90,6 +90,10 @@ def dump_entity(e):
     return out
 
 
+def dump_world_entities(entities):
+    return [dump_entity(e) for e in entities.values()]
+
+
 def dump_world(ctrl):
     m = ctrl.map
     return {'entities': [dump_entity(e) for e in ctrl.entities.values()],
